@@ -1,0 +1,61 @@
+//go:build verif
+
+package transaction
+
+import (
+	"encoding/hex"
+
+	"github.com/icon-project/goloop/module"
+)
+
+// VerifC12Fields exposes the parsed transactionV3Data of a version-3
+// transaction (add-only verification hook; no behaviour change).
+// Order: from,to,value,stepLimit,timestamp,nid,nonce,dataType(hex),data(hex),signature(hex)
+// with "-" for absent optional values ("nil" for absent dataType/data).
+func VerifC12Fields(t module.Transaction) (fields []string, raw bool, ok bool) {
+	tx, isV3 := Unwrap(t).(*transactionV3)
+	if !isV3 {
+		return nil, false, false
+	}
+	d := &tx.transactionV3Data
+	hx := func(b []byte, isNil bool) string {
+		if isNil {
+			return "nil"
+		}
+		if len(b) == 0 {
+			return "-"
+		}
+		return hex.EncodeToString(b)
+	}
+	opt := func(isNil bool, s func() string) string {
+		if isNil {
+			return "-"
+		}
+		return s()
+	}
+	sig := "-"
+	if d.Signature.Signature != nil {
+		if bs, err := d.Signature.Signature.SerializeRSV(); err == nil {
+			sig = hex.EncodeToString(bs)
+		} else if bs, err := d.Signature.Signature.SerializeRS(); err == nil {
+			sig = hex.EncodeToString(bs)
+		}
+	}
+	var dt []byte
+	if d.DataType != nil {
+		dt = []byte(*d.DataType)
+	}
+	fields = []string{
+		d.From.String(),
+		d.To.String(),
+		opt(d.Value == nil, func() string { return d.Value.String() }),
+		d.StepLimit.String(),
+		d.TimeStamp.String(),
+		opt(d.NID == nil, func() string { return d.NID.String() }),
+		opt(d.Nonce == nil, func() string { return d.Nonce.String() }),
+		hx(dt, d.DataType == nil),
+		hx(d.Data, d.Data == nil),
+		sig,
+	}
+	return fields, tx.raw, true
+}
